@@ -39,6 +39,7 @@ struct Opts {
     selfty: Option<String>, // replace `Self` by this type in signature/body (for items moved out of their impl)
     nofmt: bool,            // R5 off
     unwrap_default: bool,
+    letanchors: Vec<String>, // local names after whose `let` an `after_let NAME K` anchor is emitted
     anchors: Vec<String>,   // callee names after whose enclosing statement an `after_call NAME K` anchor is emitted
     r3calls: Vec<(String, usize)>, // callee -> number of generics R3 added to it (turbofish call sites get that many `_`)
 }
@@ -69,6 +70,7 @@ fn parse_opts(s: &str) -> Opts {
             "selfty" => o.selfty = Some(v.to_string()),
             "nofmt" => o.nofmt = true,
             "anchors" => o.anchors = list(),
+            "letanchors" => o.letanchors = list(),
             "r3calls" => o.r3calls = list().iter().filter_map(|x| x.split_once(':').map(|(a, b)| (a.to_string(), b.parse().unwrap_or(1)))).collect(),
             _ => { eprintln!("xt: unknown option {k}"); std::process::exit(3); }
         }
@@ -289,6 +291,7 @@ impl VisitMut for Rw {
                 self.visit_block_mut(&mut body);
                 let pat = &fl.pat;
                 let it = format_ident!("it{}", n);
+                let itv = format_ident!("__iter{}", n);
                 let head = format_ident!("__verif_loop_head_{}", n);
                 let bstart = format_ident!("__verif_body_start_{}", n);
                 let bend = format_ident!("__verif_body_end_{}", n);
@@ -297,7 +300,8 @@ impl VisitMut for Rw {
                 let stmts = &body.stmts;
                 let label = &fl.label;
                 *e = parse_quote!({
-                    let mut #it = ShimIntoIter::shim_iter(#iter);
+                    let #itv = #iter;
+                    let mut #it = ShimIntoIter::shim_iter(#itv);
                     #before!();
                     #label loop {
                         #head!();
@@ -872,7 +876,7 @@ impl<'a> syn::visit::Visit<'a> for CallFinder<'a> {
         if !matches!(*a.body, Expr::Block(_)) { self.visit_expr(&a.body); }
     }
 }
-struct Anchors { names: Vec<String>, counts: BTreeMap<String, usize>, tmp: usize }
+struct Anchors { names: Vec<String>, lets: Vec<String>, counts: BTreeMap<String, usize>, tmp: usize }
 impl Anchors {
     fn calls_in_stmt(&self, st: &Stmt) -> Vec<String> {
         use syn::visit::Visit;
@@ -914,6 +918,17 @@ impl VisitMut for Anchors {
                 let k = { let e = self.counts.entry(c.clone()).or_insert(0); let k = *e; *e += 1; k };
                 let m = format_ident!("__verif_after_call_{}_{}", c, k);
                 markers.push(parse_quote!(#m!();));
+            }
+            if let Stmt::Local(l) = &st {
+                if let syn::Pat::Ident(pi) = &l.pat {
+                    let nm = pi.ident.to_string();
+                    if self.lets.contains(&nm) {
+                        let key = format!("let:{nm}");
+                        let k = { let e = self.counts.entry(key).or_insert(0); let k = *e; *e += 1; k };
+                        let m = format_ident!("__verif_after_let_{}_{}", nm, k);
+                        markers.push(parse_quote!(#m!();));
+                    }
+                }
             }
             self.visit_stmt_mut(&mut st);
             let is_tail = i + 1 == n && matches!(st, Stmt::Expr(_, None));
@@ -1040,9 +1055,9 @@ fn emit_fn(key: &str, file: &str, mut sig: syn::Signature, mut block: syn::Block
             }
         }
     }
-    if !o.anchors.is_empty() {
-        ArmWrap { n: 0 }.visit_block_mut(&mut block);
-        let mut an = Anchors { names: o.anchors.clone(), counts: BTreeMap::new(), tmp: 0 };
+    if !o.anchors.is_empty() || !o.letanchors.is_empty() {
+        if !o.anchors.is_empty() { ArmWrap { n: 0 }.visit_block_mut(&mut block); }
+        let mut an = Anchors { names: o.anchors.clone(), lets: o.letanchors.clone(), counts: BTreeMap::new(), tmp: 0 };
         an.visit_block_mut(&mut block);
     }
     rw.visit_block_mut(&mut block);
